@@ -19,12 +19,17 @@ def main(tier, seed):
         jobs.append((TS, dict(maxiter=1, maxfun=6, maxls=2, ftol="sym", ls_mode="contract", ls_tmax=2, jac_mode=m, groups=["C16"])))
         jobs.append((TS, dict(maxiter=2, maxfun=8, maxls=1, ftol="sym", ls_mode="lean", jac_mode=m, callback_kind="choose", groups=["C16"])))
     jobs.append((TS, dict(maxiter=1, maxfun=6, maxls=2, ftol="sym", ls_mode="contract", ls_tmax=2, jac_mode="2-point", scaler=1, groups=["C16"])))
+    # one-sided / partly infinite boxes (is_boxed False)
+    for m, pat in (("2-point", ("fi",)), ("none", ("if",)), ("3-point", ("ii",))):
+        jobs.append((TS, dict(maxiter=1, maxfun=6, maxls=2, ftol="sym", ls_mode="contract", ls_tmax=2, jac_mode=m, pattern=pat, groups=["C16"])))
     if tier != "quick":
         for m in modes:
             jobs.append((T15, dict(L=3, jac=m)))
             jobs.append((TS, dict(maxiter=2, maxfun=9, maxls=2, ftol="sym", ls_mode="contract", ls_tmax=2, jac_mode=m, groups=["C16"])))
             jobs.append((TS, dict(maxiter=2, maxfun=8, maxls=1, ftol="sym", ls_mode="lean", jac_mode=m, checkpoint=1, ck_nit=1, ck_nfev=3, ck_pairs=1, groups=["C16"])))
     fp_jobs = C02.fp_jobs(tier, only=("line_search",))
+    if tier == "quick":
+        fp_jobs = fp_jobs[1:2]      # one-sided box, iteration 0 (decides fastest); the other bit-precise jobs run under C02
     exs = driver.explore_many(jobs, time_limit=1200 if tier == "quick" else 7200, timeout_ms=20000, max_paths=100000)
     for ex in exs:
         mine = [c for c in ex.candidates if c["name"].startswith("C16.") or c["name"].endswith("no_exception")]
